@@ -1,3 +1,4 @@
+import OutlineModel.Proofs.TieIP
 import OutlineModel.Proofs.IP
 import OutlineModel.Proofs.UDP
 import OutlineModel.Model.Dial
@@ -140,5 +141,42 @@ theorem policy_order_as_modelled :
     Gen.Decisions.requirePublicSteps = [("!ip.IsGlobalUnicast()", "ERR_ADDRESS_INVALID"), ("IsPrivateAddress(ip)", "ERR_ADDRESS_PRIVATE")] ∧
     Gen.Decisions.requirePublicFallsThroughTo = "nil" ∧
     Gen.Decisions.netStatuses = ["ERR_ADDRESS_INVALID", "ERR_ADDRESS_PRIVATE"] := by decide
+
+
+/-! ### The same policy, about the code itself
+
+`Gen.Code.RequirePublicIP` and `Gen.Code.IsPrivateAddress` are TRANSLATED from net/private_net.go on every run
+(extract/golean.go); the net.IP predicates they call are the prelude's (Model/IP.lean). -/
+
+/-- the translated `RequirePublicIP` never panics and returns exactly the model's verdict -/
+theorem code_requirePublicIP (ip : IP) :
+    (Gen.Code.RequirePublicIP ip).bind Tie.IP.verdictOf = some (requirePublicIP Gen.privateNets ip) :=
+  Tie.IP.requirePublicIP_tie ip
+
+/-- **code_requirePublic_v4**: the translated `RequirePublicIP` accepts (returns the nil error for) a 4-byte address
+    exactly when it is outside every forbidden block: the whole IPv4 space, about the code as it is now. -/
+theorem code_requirePublic_v4 (a b c d : UInt8) :
+    Gen.Code.RequirePublicIP [a, b, c, d] = some none ↔ ¬ Forbidden4 a.toNat b.toNat c.toNat d.toNat := by
+  rw [← requirePublic_v4]
+  have h := Tie.IP.requirePublicIP_tie [a, b, c, d]
+  cases hr : Gen.Code.RequirePublicIP [a, b, c, d] with
+  | none => simp [hr] at h
+  | some e =>
+    simp only [hr, Option.bind_some] at h
+    constructor
+    · intro he
+      simp only [Option.some.injEq] at he
+      subst he
+      simpa [Tie.IP.verdictOf] using h.symm
+    · intro hok
+      rw [hok] at h
+      cases e with
+      | none => rfl
+      | some m =>
+        exfalso
+        unfold Gen.Code.RequirePublicIP at hr
+        simp only [Tie.IP.isPrivate_tie] at hr
+        cases hg : isGlobalUnicast [a, b, c, d] <;> cases hp : isPrivate Gen.privateNets [a, b, c, d] <;>
+          simp [hg, hp] at hr <;> subst hr <;> simp [Tie.IP.verdictOf] at h
 
 end OutlineModel.Props.C05
